@@ -102,6 +102,12 @@ pub proof fn pf_binary_shape(n: &SyntaxNode)
     requires tree_wf(n), n.kind_s() == SyntaxKind::Binary, ast::Binary(n).op_s() != BinOp::NotIn,
     ensures exists|p: int| binary_shape(n.children_s(), p),
 {}
+/// PF22: an operator token below a binary expression is spelled like the operator it denotes
+#[verifier::external_body]
+pub proof fn pf_op_token_text(n: &SyntaxNode, c: &SyntaxNode)
+    requires tree_wf(n), n.kind_s() == SyntaxKind::Binary, is_child_of(c, n), BinOp::from_kind_s(c.kind_s()) is Some,
+    ensures c.text_s() == BinOp::from_kind_s(c.kind_s())->Some_0.as_str_s(), !is_inner_kind(c.kind_s()),
+{}
 /// PF2: leaf texts. A LineComment's text starts with `//` and contains no newline; no other leaf's text starts with `//`
 /// except inside Text/Raw/Str/Link tokens, which the printer emits verbatim; a BlockComment's text starts with `/*`.
 pub open spec fn lc_text(s: Seq<char>) -> bool { is_lc(s) && !has_newline_s(s) }
